@@ -121,6 +121,10 @@ def handle : Handler := fun op args =>
   | "spec_eval_x", _ => doEval true args
   | "spec_verify", _ => doVerify false args
   | "spec_verify_x", _ => doVerify true args
+  -- `_h`: the same op, evaluated by the harness in a process where the bundled pure-Python RIPEMD-160 is selected
+  -- (PYCOIN_USE_PYTHON_RIPEMD160): consensus does not depend on which implementation computes the digest
+  | "spec_eval_h", _ => doEval false args
+  | "spec_verify_h", _ => doVerify false args
   | "spec_laxder", [sig] => do
     match laxDerParse (← parseHex? sig) with
     | some (r, s) => some s!"ok {r} {s}"
